@@ -100,6 +100,10 @@ def cases(draw, tier):
                 "k": draw(st.sampled_from([0, 0, 1, -1, 2, -5, 3]))}
     steps = []
     pool = draw(st.lists(call_spec(), min_size=1, max_size=3))
+    if pool[0]["routine"] in ("hutch", "diag_hutch", "trace_hutch") and draw(st.booleans()):
+        # the same key, operator and size with the other probe distribution: the two calls must not influence each other
+        twin = dict(pool[0], rand="rademacher" if pool[0]["rand"] == "normal" else "normal")
+        pool = [pool[0], twin] + pool[1:2]
     for _ in range(draw(st.integers(2, 8))):
         if draw(st.booleans()):
             steps.append({"t": "user", "op": draw(st.sampled_from(USER_OPS)), "arg": draw(st.integers(0, 1000))})
